@@ -369,17 +369,21 @@ fn fn_j<'tcx>(tcx: TyCtxt<'tcx>, ldid: LocalDefId, dk: DefKind) -> J {
         }
         locals.push(lo);
     }
-    // user names
-    let mut names = J::obj();
+    // user names (a list: shadowed bindings share a name)
+    let mut names = Vec::new();
     for vdi in body.var_debug_info.iter() {
         if let rustc_middle::mir::VarDebugInfoContents::Place(p) = &vdi.value {
             let mut e = J::obj();
+            e.set("n", J::s(vdi.name.as_str()));
             e.set("p", place_j(tcx, body, p));
-            names.set(vdi.name.as_str(), e);
+            if let Some(ai) = vdi.argument_index {
+                e.set("arg", J::n(ai as i128));
+            }
+            names.push(e);
         }
     }
     o.set("locals", J::Arr(locals));
-    o.set("names", names);
+    o.set("names", J::Arr(names));
 
     let mut blocks = Vec::new();
     for (bb, data) in body.basic_blocks.iter_enumerated() {
@@ -501,6 +505,16 @@ fn const_j<'tcx>(tcx: TyCtxt<'tcx>, owner: DefId, c: &Const<'tcx>) -> J {
         o.set("path", J::s(&path_s(tcx, uv.def)));
         if let Some(p) = uv.promoted {
             o.set("promoted", J::n(p.as_usize() as i128));
+            // named constants the promoted body refers to (e.g. `&CLOEXEC_MSG_FOOTER`)
+            if uv.def.is_local() {
+                let bodies = tcx.promoted_mir(uv.def);
+                if p.as_usize() < bodies.len() {
+                    let mut c = ConstCollector { tcx, out: Vec::new() };
+                    use rustc_middle::mir::visit::Visitor;
+                    c.visit_body(&bodies[p]);
+                    o.set("refs", J::Arr(c.out.iter().map(|x| J::s(x)).collect()));
+                }
+            }
         }
     }
     let env = ty::TypingEnv::post_analysis(tcx, owner);
@@ -517,12 +531,61 @@ fn const_j<'tcx>(tcx: TyCtxt<'tcx>, owner: DefId, c: &Const<'tcx>) -> J {
                     o.set("bytes", J::Arr(bytes.iter().map(|b| J::n(*b as i128)).collect()));
                 }
             }
-            ConstValue::Indirect { .. } => {
+            ConstValue::Indirect { alloc_id, offset } => {
                 o.set("value", J::s("indirect"));
+                if let Some(b) = alloc_bytes(tcx, alloc_id, offset.bytes()) {
+                    o.set("mem", b);
+                }
+            }
+        }
+        if let ConstValue::Scalar(rustc_middle::mir::interpret::Scalar::Ptr(ptr, _)) = v {
+            let (prov, off) = ptr.prov_and_relative_offset();
+            if let Some(b) = alloc_bytes(tcx, prov.alloc_id(), off.bytes()) {
+                o.set("mem", b);
             }
         }
     }
     o
+}
+
+/// Raw bytes of a constant allocation (diagnostic read, max 64 bytes), for `Indirect` constants and pointers to memory.
+fn alloc_bytes<'tcx>(
+    tcx: TyCtxt<'tcx>,
+    alloc_id: rustc_middle::mir::interpret::AllocId,
+    offset: u64,
+) -> Option<J> {
+    match tcx.try_get_global_alloc(alloc_id) {
+        Some(rustc_middle::mir::interpret::GlobalAlloc::Memory(a)) => {
+            let a = a.inner();
+            let size = a.size().bytes();
+            if offset > size {
+                return None;
+            }
+            let end = core::cmp::min(size, offset + 64);
+            let bytes = a.inspect_with_uninit_and_ptr_outside_interpreter(offset as usize..end as usize);
+            Some(J::Arr(bytes.iter().map(|b| J::n(*b as i128)).collect()))
+        }
+        _ => None,
+    }
+}
+
+struct ConstCollector<'tcx> {
+    tcx: TyCtxt<'tcx>,
+    out: Vec<String>,
+}
+
+impl<'tcx> rustc_middle::mir::visit::Visitor<'tcx> for ConstCollector<'tcx> {
+    fn visit_const_operand(
+        &mut self,
+        c: &rustc_middle::mir::ConstOperand<'tcx>,
+        _loc: rustc_middle::mir::Location,
+    ) {
+        if let Const::Unevaluated(uv, _) = c.const_ {
+            if uv.promoted.is_none() {
+                self.out.push(path_s(self.tcx, uv.def));
+            }
+        }
+    }
 }
 
 fn operand_j<'tcx>(tcx: TyCtxt<'tcx>, body: &Body<'tcx>, owner: DefId, op: &Operand<'tcx>) -> J {
